@@ -15,5 +15,7 @@ if [ "${SKIP_CONFIRM:-0}" != 1 ]; then
 fi
 git -C /repo worktree remove --force "$WT"
 echo "== check $P on /repo with the change applied"
+EVB=$(mktemp -d /tmp/evbak-XXXX); cp -a /verif/evidence/. "$EVB"/
 git -C /repo apply "$S/patch.diff" && (cd /verif && bin/check "$P" --tier "$T"; echo "exit=$?"); git -C /repo checkout -- .
+cp -a "$EVB"/. /verif/evidence/; rm -rf "$EVB"   # evidence files must come from runs on the unchanged tree
 git -C /repo status --short | head
